@@ -321,7 +321,6 @@ func (c *Client) sendRecv(tm message, rm message) error {
 	// Note that the tag will be cleared from pending
 	// automatically (see handleOne for details).
 	resp := responsePool.Get().(*response)
-	defer responsePool.Put(resp)
 	resp.r = rm
 	c.pendingMu.Lock()
 	c.pending[tag(t)] = resp
@@ -332,8 +331,16 @@ func (c *Client) sendRecv(tm message, rm message) error {
 	err := send(c.log, c.conn, tag(t), tm)
 	c.sendMu.Unlock()
 	if err != nil {
+		// resp is still registered in c.pending and will be signalled when
+		// the connection's failure is broadcast: it must not go back to
+		// the (process-wide) pool, where another call - possibly of another
+		// Client - would pick it up and receive that signal.
 		return fmt.Errorf("send: %w", err)
 	}
+
+	// Once waitAndRecv has returned, resp has been signalled and removed
+	// from c.pending, so it can be recycled.
+	defer responsePool.Put(resp)
 
 	// Co-ordinate with other receivers.
 	if err := c.waitAndRecv(resp.done); err != nil {
